@@ -51,7 +51,15 @@ def exhaustive(tier):
                         yield {"rot": True, "est": est, "fpr": 0.001, "q": q, "hash": "default",
                                "ops": [alphabet[c] for c in combo]}
 
-    return [("op_strings_len<=%d_est<=2_Q<=3" % L, gen)]
+    def large():
+        # filters holding more than 256 elements each: the rotation falls exactly at est_elements there too (counts above the range
+        # in which equal integers are also identical objects)
+        for est in (255, 256, 257, 300):
+            for q in (1, 2):
+                yield {"rot": True, "est": est, "fpr": 0.01, "q": q, "hash": "default",
+                       "ops": [["bulk", est - 2], ["new"], ["new"], ["new"], ["bulk", est + 2], ["new"], ["reload", 0], ["bulk", 5]]}
+
+    return [("op_strings_len<=%d_est<=2_Q<=3" % L, gen), ("rotation_at_est_255..300", large)]
 
 
 def run_case(case, ctx):
